@@ -21,6 +21,7 @@ from ..norm import NotAlgebraic, Poly, sql_poly
 from ..pestsym import Item, SymList, first_token, sections, token, total
 from ..report import where_of
 from ..source import AnalysisError, dotted_name
+from ..pestsym import ReadableWrong
 from ..sqlmodel import conjuncts
 from .c17 import resolve_vector, column_role, strip_tolist, vector_dumps
 
@@ -133,6 +134,11 @@ def run(ctx, chk, tier="quick"):
                 for tr in (TYPES if ext == "tpl" else (sy,)):
                     try:
                         s = SymList(ctx, f, {"specific_yield.type": sy, "transmissivity.type": tr}).run()
+                    except ReadableWrong as exc:
+                        chk.ob("C19.O1", False, where_of(f, exc.node if exc.node is not None else f.node), str(exc), exc.required,
+                               key="%s|readable-wrong|%s" % (f.qualname, str(exc)[:40]),
+                               why="the instruction / control file is generated with the two section sizes exchanged (or fails) whenever the counts are not in statement order")
+                        continue
                     except (AnalysisError, NotAlgebraic) as exc:
                         chk.indeterminate("C19.O1", where_of(f, f.node), "symbolic construction (%s/%s): %s" % (sy, tr, exc))
                         continue
